@@ -255,6 +255,11 @@ func runC07(c *Ctx) {
 			}
 		case probe == 7: // FOR count
 			kind = "for"
+			if r.Bool() {
+				// an earlier block in front of the EQU definitions: the count of the second block uses EQUs written after it
+				first := &asm.For{Counter: "h", Count: asm.Lit{V: r.Range(0, 2)}, Body: []asm.Item{&asm.Instr{Op: "dat", A: asm.Operand{Mode: '#', E: asm.Ref{Name: "h"}}, B: &asm.Operand{Mode: '#', E: asm.Lit{V: 7}}}}}
+				p.Items = append([]asm.Item{first}, p.Items...)
+			}
 			p.Items = append(p.Items, &asm.For{Counter: "i", Count: e1, Body: []asm.Item{&asm.Instr{Op: "dat", A: asm.Operand{Mode: '#', E: asm.Ref{Name: "i"}}, B: &asm.Operand{Mode: '#', E: asm.Lit{V: 0}}}}})
 			p.Items = append(p.Items, dat())
 		default: // ;assert
